@@ -5,15 +5,15 @@ Import ListNotations.
 
 Inductive case :=
 | Page (code : N) (reason message : list N) (impl_page : bytes)
-| Resp (code : N) (reason server_ver : bytes) (message : list N) (impl : bytes).
+| Resp (code : N) (line_reason : bytes) (page_reason : list N) (server_ver : bytes) (message : list N) (impl : bytes).
 
 Definition check_case (c : case) : bool :=
   match c with
   | Page code reason msg p => bytes_eqb (format_error code reason msg) p
-  | Resp code reason ver msg r =>
-    bytes_eqb (make_error_response code reason ver (format_error code (map bN reason) msg)) r
+  | Resp code lreason preason ver msg r =>
+    bytes_eqb (make_error_response code lreason ver (format_error code preason msg)) r
     && match ref_read_response r with
-       | Some rr => bytes_eqb (r_body rr) (format_error code (map bN reason) msg)
+       | Some rr => bytes_eqb (r_body rr) (format_error code preason msg)
                     && match r_rest rr with [] => true | _ => false end
        | None => false
        end
